@@ -625,6 +625,51 @@ def ephemeral_star_expressions(col, rng):
         run_series("** string path after memo overflow", lambda j: 'tree.**.k%d' % j, lambda t, j: [('l', j), ('r', j)])
 
 
+def one_spec_object_on_different_targets(col):
+    """"its outcome is a function of target, spec, scope and registrations only": ONE spec object whose default / argument / value is
+    itself a spec (so that what it yields depends on the target or the scope of the call) is evaluated on a sequence of DIFFERENT
+    targets and scopes; each outcome equals that of a freshly built equal spec object on that target"""
+    from glom import Check, Match, M, Or, And, Switch, Val, Assign, Call, Invoke, Iter, SKIP
+    builders = [
+        ('Check(type=, default=T[..])', lambda: Check(T['v'], type=str, default=T['port'])),
+        ('Check(equal_to=, default=S.x)', lambda: Check(T['v'], equal_to='never', default=S.fallback)),
+        ('Check(instance_of=, default=Spec)', lambda: Check(T['v'], instance_of=bytes, default=Spec(('port', lambda p: p + 1)))),
+        ('Check(one_of=, default=(T, T))', lambda: Check(T['v'], one_of=('never',), default=(T['port'], S.fallback))),
+        ('Check in a filter with default SKIP', lambda: ('rows', Iter().filter(Check(type=int, default=SKIP)).all())),
+        ('Coalesce(default=T[..])', lambda: Coalesce('zz', default=T['port'])),
+        ('Match(default=T[..])', lambda: Match(M == 'never', default=T['port'])),
+        ('Or(default=S.x)', lambda: Match(Or(M == 'never', default=S.fallback))),
+        ('And(default=[T[..]])', lambda: Match(And(M == 'never', default=[T['port']]))),
+        ('Switch(default=T[..])', lambda: Match(Switch([(M == 'never', Val(0))], default=T['port']))),
+        ('Call(args=(T[..], S.x))', lambda: Call(lambda a, b: (a, b), args=(T['port'], S.fallback))),
+        ('Invoke.specs', lambda: Invoke(lambda a, k=None: (a, k)).specs(T['port'], k=S.fallback)),
+        ('S(x=T[..]) then read', lambda: (S(bound=T['port']), S.bound)),
+        ('T-call argument', lambda: T['fn'](T['port'], S.fallback)),
+    ]
+    targets = [({'v': 5, 'port': 8080, 'rows': [1, 'a', 2], 'fn': _collect}, {'fallback': 'ABC'}),
+               ({'v': 6, 'port': 9090, 'rows': ['x', 3], 'fn': _collect}, {'fallback': 'XYZ'}),
+               ({'v': 'text', 'port': 443, 'rows': [], 'fn': _collect}, {'fallback': None}),
+               ({'v': 5, 'port': 8080, 'rows': [1, 'a', 2], 'fn': _collect}, {'fallback': 'ABC'})]
+    for name, mk in builders:
+        persistent = mk()
+        snap = snapshot(persistent)
+        for i, (t, sc) in enumerate(targets):
+            a = call(glom_pkg.glom, dict(t), persistent, scope=dict(sc))
+            b = call(glom_pkg.glom, dict(t), mk(), scope=dict(sc))
+            col.case(('one-object-many-targets', name, i), i > 0)
+            col.count('calls_in_history', 2)
+            if outcome_signature(a) != outcome_signature(b):
+                col.violation('C06/outcome-depends-on-history:one-object-on-different-targets:%s' % name.split('(')[0],
+                              '%s: evaluation #%d of one spec object, on %r with scope %r: %r ; a fresh equal spec object gives %r'
+                              % (name, i + 1, t, sc, a, b), None)
+                break
+            if snapshot(persistent) != snap:
+                col.violation('C06/spec-modified:%s' % name.split('(')[0], '%s: the spec object changed during evaluation #%d: %s'
+                              % (name, i + 1, first_diff(snap, snapshot(persistent))), None)
+                break
+            col.count('outcomes_equal_to_cold_baseline')
+
+
 def run(ctx):
     col, rng = ctx.col, ctx.rng
     P = pool()
@@ -646,6 +691,7 @@ def run(ctx):
         spec_glom_star_toggles(col)
         related_registration_history(col, rng)
         exact_registration_after_lookups(col, rng)
+        one_spec_object_on_different_targets(col)
         ephemeral_star_expressions(col, rng)
         for h in range(ctx.n(3, 4)):
             history(col, rng, P, baselines, ctx.n(500, 3000), contract)
